@@ -505,6 +505,9 @@ func parseSpecFunc(s string) (*SpecFunc, error) {
 // ---------------------------------------------------------------------------
 // expression parser
 
+// typeArgIndex: builtins whose argument at this index is a type, not an expression
+var typeArgIndex = map[string]int{"typeis": 1, "zeroOf": 1, "jsonDecode": 1, "jsonDecodeErr": 1, "jsonMapHas": 2, "jsonMapGet": 2}
+
 type tok struct {
 	kind string // id int str op eof
 	text string
@@ -778,7 +781,7 @@ func (p *exprParser) parsePostfix() (*Expr, error) {
 			var args []*Expr
 			for !p.isOp(")") {
 				// typeis(v, T): second argument is a type
-				if e.Op == "id" && (e.Name == "typeis" || e.Name == "zeroOf" || e.Name == "jsonDecode" || e.Name == "jsonDecodeErr") && len(args) == 1 {
+				if e.Op == "id" && typeArgIndex[e.Name] > 0 && len(args) == typeArgIndex[e.Name] {
 					ts := p.typeSrcUntil(")")
 					args = append(args, &Expr{Op: "type", TypeSrc: ts})
 					break
